@@ -1,6 +1,6 @@
 (* Laws of the typed decoding semantics (Model/Decode.v). *)
 From Coq Require Import NArith ZArith List Bool Arith Lia.
-From GJ Require Import Base.Bytes Spec.Json Model.Int Model.StrDec Model.Enc Model.Decode Model.Base64 Proofs.IntEncP Proofs.Base64P.
+From GJ Require Import Base.Bytes Base.Show Spec.Json Model.Int Model.StrDec Model.Enc Model.Decode Model.Base64 Proofs.IntEncP Proofs.Base64P.
 Import ListNotations.
 Open Scope N_scope.
 
@@ -8,13 +8,14 @@ Fixpoint wf_ty (t : ty) : bool :=
   match t with
   | TInt bits | TUint bits => (bits =? 8) || (bits =? 16) || (bits =? 32) || (bits =? 64)
   | TPtr e | TSlice e | TArr _ e | TMap e => wf_ty e
+  | TMapI _ bits e => ((bits =? 8) || (bits =? 16) || (bits =? 32) || (bits =? 64)) && wf_ty e
   | TStruct fs => forallb (fun kt : list N * ty => wf_ty (snd kt)) fs
   | _ => true
   end.
 
 Fixpoint tsize (t : ty) : nat :=
   match t with
-  | TPtr e | TSlice e | TArr _ e | TMap e => S (tsize e)
+  | TPtr e | TSlice e | TArr _ e | TMap e | TMapI _ _ e => S (tsize e)
   | TStruct fs => S (fold_right (fun kt a => (tsize (snd kt) + a)%nat) O fs)
   | _ => 1%nat
   end.
@@ -48,7 +49,7 @@ Proof. induction fs as [|y r IH]; intros H; [destruct H|]. cbn [fold_right]. des
 Lemma zero_typed_n : forall n t, (tsize t <= n)%nat -> wf_ty t = true -> has_type t (zero t) = true.
 Proof.
   induction n as [|n IH]; intros t Hs Hw; [destruct t; cbn in Hs; lia|].
-  destruct t as [ |bits|bits| | |e|e|k e|e|fs| ]; try reflexivity.
+  destruct t as [ |bits|bits| | |e|e|k e|e|fs| |sg bits e]; try reflexivity.
   - cbn [zero has_type]. apply width_zero_in_range. exact Hw.
   - cbn [zero has_type]. apply width_zero_in_range. exact Hw.
   - cbn [zero has_type wf_ty tsize] in *. rewrite repeat_length, Nat.eqb_refl. cbn [andb]. apply forallb_repeat. apply IH; [lia|exact Hw].
@@ -65,11 +66,11 @@ Lemma zero_typed t : wf_ty t = true -> has_type t (zero t) = true.
 Proof. apply (zero_typed_n (tsize t)). lia. Qed.
 
 (* ---------- null ---------- *)
-Theorem dec_null_nilable f t init : (match t with TIface | TPtr _ | TSlice _ | TMap _ | TBytes => true | _ => false end) = true ->
+Theorem dec_null_nilable f t init : (match t with TIface | TPtr _ | TSlice _ | TMap _ | TBytes | TMapI _ _ _ => true | _ => false end) = true ->
   dec (S f) t (JLeaf TNull) init = DOk VNil.
 Proof. destruct t; intro H; try discriminate H; reflexivity. Qed.
 
-Theorem dec_null_other f t init : (match t with TIface | TPtr _ | TSlice _ | TMap _ | TBytes => true | _ => false end) = false ->
+Theorem dec_null_other f t init : (match t with TIface | TPtr _ | TSlice _ | TMap _ | TBytes | TMapI _ _ _ => true | _ => false end) = false ->
   dec (S f) t (JLeaf TNull) init = DOk init.
 Proof. destruct t; intro H; try discriminate H; reflexivity. Qed.
 
@@ -209,6 +210,80 @@ Proof.
     apply (Hk kf ft (nth_error_In _ _ Hn) x (nth i cur VNil) v); [apply (fields_typed_nth fs cur i kf ft Hc Hn)|exact D].
 Qed.
 
+(* ---------- integer map keys ---------- *)
+Lemma canonical_digits s n : canonical s n -> all_digits s = true /\ dec_N s = n.
+Proof.
+  intros (Hd & Hv & Hne & _). split.
+  - unfold all_digits. destruct s as [|c r]; [congruence|]. apply forallb_forall. intros x Hx. rewrite Forall_forall in Hd.
+    specialize (Hd x Hx). unfold is_digit in Hd. apply andb_true_iff. split; apply N.leb_le; lia.
+  - unfold dec_N. rewrite <- Hv. generalize 0. clear. induction s as [|c r IH]; intro a; [reflexivity|]. cbn [dec_N_acc value]. apply IH.
+Qed.
+Lemma canonical_head s n : canonical s n -> match s with 45 :: _ => False | 43 :: _ => False | _ => True end.
+Proof.
+  intros (Hd & _ & _ & _). destruct s as [|c r]; [exact I|]. inversion Hd as [|? ? Hc _]; subst. unfold is_digit in Hc.
+  destruct (N.eq_dec c 45) as [->|N1]; [lia|]. destruct (N.eq_dec c 43) as [->|N2]; [lia|].
+  destruct c as [|p]; [exact I|]. repeat (destruct p as [p|p|]; try exact I; try (exfalso; lia)).
+Qed.
+
+(* what Marshal writes for an integer key in range reads back as that integer *)
+Lemma key_int_of_int_key signed bits z : (bits =? 8) || (bits =? 16) || (bits =? 32) || (bits =? 64) = true ->
+  in_range signed bits z = true -> key_int signed bits (int_key signed bits z) = Some z.
+Proof.
+  intros Hw Hr. assert (W : width_ok bits).
+  { unfold width_ok. repeat (apply orb_true_iff in Hw; destruct Hw as [Hw|Hw]); apply N.eqb_eq in Hw; auto. }
+  unfold int_key, key_int. destruct signed.
+  - unfold in_range in Hr. pose proof Hr as Hr'. apply andb_true_iff in Hr'. destruct Hr' as [H1 H2]. apply Z.leb_le in H1. apply Z.ltb_lt in H2.
+    pose proof (append_int_canonical bits z W (conj H1 H2)) as C. unfold canonical_int, twos in C.
+    destruct (z <? 0)%Z eqn:Ez.
+    + destruct C as (d & E & Cd). rewrite E. destruct (canonical_digits d _ Cd) as [A D]. rewrite A, D.
+      apply Z.ltb_lt in Ez. rewrite Z2N.id by lia. replace (- - z)%Z with z by lia. unfold in_range. rewrite Hr. reflexivity.
+    + apply Z.ltb_ge in Ez. destruct (canonical_digits _ _ C) as [A D]. pose proof (canonical_head _ _ C) as Hh.
+      destruct (append_int bits (Z.to_N (z mod 2 ^ Z.of_N bits))) as [|c r] eqn:Ea; [discriminate A|].
+      destruct (N.eq_dec c 45) as [->|N1]; [contradiction|]. destruct (N.eq_dec c 43) as [->|N2]; [contradiction|].
+      assert (Hsame : match c :: r with 45 :: r0 => (true, r0) | 43 :: r0 => (false, r0) | _ => (false, c :: r) end = (false, c :: r)).
+      { destruct c as [|p]; [reflexivity|]. repeat (destruct p as [p|p|]; try reflexivity; try congruence). }
+      rewrite Hsame, A, D. rewrite Z2N.id by lia. unfold in_range. rewrite Hr. reflexivity.
+  - unfold in_range in Hr. pose proof Hr as Hr'. apply andb_true_iff in Hr'. destruct Hr' as [H1 H2]. apply Z.leb_le in H1. apply Z.ltb_lt in H2.
+    pose proof (append_uint_canonical bits (Z.to_N z) W) as C. rewrite N.mod_small in C by (rewrite <- (Z2N.id (2 ^ Z.of_N bits)) in H2 by lia; replace (2 ^ bits) with (Z.to_N (2 ^ Z.of_N bits)) by (rewrite Z2N.inj_pow by lia; rewrite N2Z.id; reflexivity); lia).
+    destruct (canonical_digits _ _ C) as [A D].
+    assert (Hsame : forall s : list N, match s with 45 :: r0 => (false, s) | 43 :: r0 => (false, s) | _ => (false, s) end = (false, s)).
+    { intros [|c r]; [reflexivity|]. destruct c as [|p]; [reflexivity|]. repeat (destruct p as [p|p|]; try reflexivity). }
+    rewrite Hsame, A, D. rewrite Z2N.id by lia. unfold in_range. rewrite Hr. reflexivity.
+Qed.
+Lemma key_int_in_range signed bits s z : key_int signed bits s = Some z -> in_range signed bits z = true.
+Proof.
+  unfold key_int. destruct (match s with 45 :: r => if signed then (true, r) else (false, s) | 43 :: r => if signed then (false, r) else (false, s) | _ => (false, s) end) as [neg body].
+  destruct (all_digits body); [|discriminate]. destruct (in_range signed bits (if neg then (- Z.of_N (dec_N body))%Z else Z.of_N (dec_N body))) eqn:E; [|discriminate].
+  intro H. inversion H; subst. exact E.
+Qed.
+Lemma canon_int_key signed bits z : (bits =? 8) || (bits =? 16) || (bits =? 32) || (bits =? 64) = true ->
+  in_range signed bits z = true -> canon_key signed bits (int_key signed bits z) = true.
+Proof. intros Hw Hr. unfold canon_key. rewrite (key_int_of_int_key signed bits z Hw Hr). apply list_eqb_eq. reflexivity. Qed.
+
+Lemma set_key_typed_k signed bits e k v : canon_key signed bits k = true -> has_type e v = true ->
+  forall m, forallb (fun kv : list N * gv => canon_key signed bits (fst kv) && has_type e (snd kv)) m = true ->
+  forallb (fun kv : list N * gv => canon_key signed bits (fst kv) && has_type e (snd kv)) (set_key k v m) = true.
+Proof.
+  intros Hk Hv. induction m as [|[k' v'] m IH]; intro Hm; cbn [set_key].
+  - cbn [forallb fst snd]. rewrite Hk, Hv. reflexivity.
+  - cbn [forallb fst snd] in Hm. apply andb_true_iff in Hm. destruct Hm as [H1 H2]. destruct (list_eqb k k').
+    + cbn [forallb fst snd]. rewrite Hk, Hv, H2. reflexivity.
+    + cbn [forallb fst snd]. rewrite H1, (IH H2). reflexivity.
+Qed.
+Lemma map_loop_k_typed signed bits e decf : (bits =? 8) || (bits =? 16) || (bits =? 32) || (bits =? 64) = true ->
+  keeps e decf -> has_type e (zero e) = true ->
+  forall l m r, forallb (fun kv : list N * gv => canon_key signed bits (fst kv) && has_type e (snd kv)) m = true ->
+  map_loop_k decf (zero e) (fun k' => match key_int signed bits k' with Some z => Some (int_key signed bits z) | None => None end) l m = DOk r ->
+  has_type (TMapI signed bits e) r = true.
+Proof.
+  intros Hw Hk Hz. induction l as [|[[k om] x] l IH]; intros m r Hm H; cbn [map_loop_k] in H.
+  - inversion H; subst. exact Hm.
+  - destruct (unq k) as [k'|]; [|discriminate H]. destruct (key_int signed bits k') as [z|] eqn:Ek; [|discriminate H].
+    destruct (decf x (zero e)) as [v| |] eqn:E; try discriminate H.
+    apply (IH (set_key (int_key signed bits z) v m) r); [|exact H]. apply set_key_typed_k; [|exact (Hk x (zero e) v Hz E)|exact Hm].
+    apply canon_int_key; [exact Hw|exact (key_int_in_range signed bits k' z Ek)].
+Qed.
+
 (* []byte: its values are those of a slice of uint8 *)
 Lemma has_type_u8 x : has_type (TUint 8) x = match x with VInt z => in_range false 8 z | _ => false end.
 Proof. destruct x; reflexivity. Qed.
@@ -225,7 +300,7 @@ Proof.
   induction f as [|f IH]; intros t Hw x start v Hs H; [discriminate H|].
   cbn [dec] in H. destruct (is_null x) eqn:En.
   - destruct t; inversion H; subst; try exact Hs; reflexivity.
-  - destruct t as [ |bits|bits| | |e|e|k e|e|fs| ]; cbn [wf_ty] in Hw.
+  - destruct t as [ |bits|bits| | |e|e|k e|e|fs| |sg bits e]; cbn [wf_ty] in Hw.
     + destruct x as [[]| |]; inversion H; reflexivity.
     + destruct x as [[]| |]; try discriminate H. destruct (int_of true bits raw) as [z|] eqn:E; inversion H; subst. cbn [has_type]. exact (int_of_in_range true bits raw z Hw E).
     + destruct x as [[]| |]; try discriminate H. destruct (int_of false bits raw) as [z|] eqn:E; inversion H; subst. cbn [has_type]. exact (int_of_in_range false bits raw z Hw E).
@@ -261,6 +336,9 @@ Proof.
         destruct Hv as [items ->]. rewrite has_type_bytes.
         apply (slice_loop_typed (TUint 8) (dec f (TUint 8)) (IH (TUint 8) eq_refl) eq_refl l (match start with VSlice o => o | _ => [] end) [] (VSlice items)); [|reflexivity|exact H].
         destruct start; try reflexivity. exact Hs.
+    + destruct x as [| |l]; try discriminate H. apply andb_true_iff in Hw. destruct Hw as [Hwd Hwe].
+      apply (map_loop_k_typed sg bits e (dec f e) Hwd (IH e Hwe) (zero_typed e Hwe) l (match start with VMap o => o | _ => [] end) v); [|exact H].
+      destruct start; try reflexivity. cbn [has_type] in Hs. exact Hs.
 Qed.
 
 (* ---------- what the document does not address keeps its value ---------- *)
